@@ -546,6 +546,7 @@ pub fn prepare(cons: &mut Consumer, p: Program) -> Option<Prepared> {
         prelude: scalar_prelude(&p.schema),
         exposed: vec![Exposed { key: "resp".into(), path: format!("{}::ResponseData", m.name), de: true, ser: with_ser }],
         custom: vec![],
+        outer: String::new(),
     });
     Some(Prepared { op: m.operation_name.clone(), module: m.name.clone(), p, obs, with_ser, idx })
 }
